@@ -277,10 +277,11 @@ impl Resolver {
                 self.res.at.insert(key(e), r);
             }
             Expr::SuperGet(_) | Expr::SuperInvoke(..) => {
-                // receiver: slot 0 of the *current* function, by its name
-                let slot0 = self.fns.last().unwrap().scopes[0][0].clone();
+                // receiver: the first parameter of the enclosing method (`self`, or `Self` in a static
+                // method), captured like any other variable when `super` sits in a nested function
+                let slot0 = self.fns.iter().rev().map(|f| f.scopes[0][0].clone()).find(|n| n == "self" || n == "Self").unwrap_or_else(|| self.fns.last().unwrap().scopes[0][0].clone());
                 if slot0 != "self" && slot0 != "Self" {
-                    self.res.unsupported.push("super inside a nested function (X)".into());
+                    self.res.unsupported.push("super outside a method".into());
                 }
                 let recv = self.lookup(&slot0);
                 self.res.super_recv.insert(key(e), recv);
